@@ -362,14 +362,14 @@ def c_elem(j):
 HEADER = "From Skv Require Import PyStr Json Corr Markup ParserCard Parser.\nOpen Scope N_scope.\n"
 
 
-def model_mismatches(R, name, ty, show, terms_and_obs, shard=40):
+def model_mismatches(R, name, ty, show, terms_and_obs, shard=40, trunc=400):
     """Write Cases_<name>_<i>.v shards, compile them in parallel, return [(index, model text)]."""
     files, offs = [], []
     for i in range(0, len(terms_and_obs), shard):
         chunk = terms_and_obs[i:i + shard]
         body = (HEADER + f"Definition cases : list ({ty} * pstr) := " +
                 C.clist((f"({t}, {cstr(o)})" for t, o in chunk), f"({ty} * pstr)") + ".\n" +
-                f"Eval vm_compute in mismatches {show} cases.\n")
+                f"Eval vm_compute in mismatches_trunc {trunc} {show} cases.\n")
         f = R.gen / f"Cases_{name}_{i // shard}.v"
         f.write_text(body)
         files.append(f)
@@ -378,7 +378,7 @@ def model_mismatches(R, name, ty, show, terms_and_obs, shard=40):
     bad = []
     for f, off in zip(files, offs):
         bad += [(off + idx, txt) for idx, txt in parse_mismatches(outs[f])]
-    R.checker_cmds.append(f"coqc Cases_{name}_*.v ({len(files)} shards): Eval vm_compute in mismatches {show} cases")
+    R.checker_cmds.append(f"coqc Cases_{name}_*.v ({len(files)} shards): Eval vm_compute in mismatches_trunc {trunc} {show} cases")
     return bad
 
 
@@ -410,6 +410,18 @@ def oracle_check(blocks, obs):
                         f"Markdown()(item) depends on what was converted before: fresh={t['fresh']!r} used={t['used']!r}"))
             break
     failing = [t for t in texts if isinstance(t["fresh"], dict)]
+    # supported elements, of a shape pandoc does emit, that the converter rejects (D27, D28)
+    for c in obs.get("culprits", []):
+        n = c["node"]
+        if c["t"] == "Image":
+            bad.append(({"kind": "rejects-supported-element", "element": "Image", "error": c["error"]},
+                        f"an Image with title {n['c'][2][1]!r} and {len(n['c'][1])} caption inlines is rejected ({c['error']})"))
+        elif c["t"] == "Table" and c["error"] in ("EOther", "EValue"):
+            cc = n["c"]
+            headerless = (len(cc) == 6 and cc[3][1] == [] and cc[4]) or (len(cc) == 5 and cc[3] and all(h == [] for h in cc[3]))
+            if headerless:
+                bad.append(({"kind": "rejects-supported-element", "element": "Table-without-header", "error": c["error"]},
+                            f"a table without header row is rejected ({c['error']})"))
     heads = [(b["c"][0], t["fresh"]) for b, t in zip(blocks, texts) if b["t"] == "Header" and not isinstance(t["fresh"], dict)]
     leading = bool(blocks) and blocks[0]["t"] != "Header"
     if failing or leading:
@@ -456,6 +468,11 @@ def oracle_check(blocks, obs):
     return bad
 
 
+D27_WITNESS = [Header(1, [Str("T")]), Para([Str("build"), Space(), {"t": "Image", "c": [["", [], []], [Str("badge")], ["https://x/y.svg", ""]]}])]
+_CELL = lambda t: [["", [], []], {"t": "AlignDefault"}, 1, 1, [Plain([Str(t)])]]          # noqa: E731
+D28_WITNESS = [Header(1, [Str("T")]),
+               {"t": "Table", "c": [["", [], []], [None, []], [[{"t": "AlignDefault"}, {"t": "ColWidthDefault"}]] * 2, [["", [], []], []],
+                                    [[["", [], []], 0, [], [[["", [], []], [_CELL("a"), _CELL("b")]]]]], [["", [], []], []]]}]
 D20_WITNESS = [Header(1, [Str("A")]), Para([Str("a1")]), Header(1, [Str("B")]), Header(1, [Str("A")]), Para([Str("a2")])]
 # witnesses of the defects that are fixed in the tree under test (they must stay fixed)
 FIXED_WITNESSES = {
@@ -495,6 +512,8 @@ def run(R, only=None):
     R.notes["guards"] = [
         "C15_outline/C15_content/C15_render_outline: generate bs = Ok card /\\ NoDup (spec_paths bs)  (no two headers with the same title under the same parent: D20)",
         "C15_dup_refuted witness: # A, a1, # B, # A, a2  -- a1 is lost",
+        "C15_generate_total_partial: Forall convertible bs /\\ starts_with_header bs; C15_generate_total_refuted witnesses: a paragraph with an inline "
+        "image whose title does not start with 'fig:' (D27), a new-layout table without header row (D28)",
         "D18, D19, D21 are fixed in the tree under test (fix: commits); their former witnesses are theorems C15_slash_title_kept, C15_deep_first_siblings, C15_md_state_all",
     ]
     R.notes["not_modelled"] = ["inline/block types outside Markup.v's constructors (Span, Math, Note, Cite, LineBlock, DefinitionList)",
@@ -506,10 +525,10 @@ def run(R, only=None):
     g = Gen(rnd)
 
     # ---- (1) documents
-    ndocs = 2400 if big else 420
-    docs = [FIXED_WITNESSES["D18"], FIXED_WITNESSES["D19"], FIXED_WITNESSES["D21"], D20_WITNESS] + [g.document() for _ in range(ndocs)]
+    ndocs = 6000 if big else 420
+    docs = [FIXED_WITNESSES["D18"], FIXED_WITNESSES["D19"], FIXED_WITNESSES["D21"], D20_WITNESS, D27_WITNESS, D28_WITNESS] + [g.document() for _ in range(ndocs)]
     # ---- (2) call sequences on one Markdown instance
-    nseq = 700 if big else 110
+    nseq = 1800 if big else 110
     failing_list = {"t": "BulletList", "c": [[Para([Str("x")]), {"t": "HorizontalRule"}]]}
     seqs = [[failing_list, {"t": "BulletList", "c": [[Para([Str("y")])]]}, {"t": "SoftBreak"}]]
     for _ in range(nseq):
@@ -528,9 +547,13 @@ def run(R, only=None):
         return search(R, docs[:60], "runner-failed")
     obs_docs, obs_seqs = json.loads(p.stdout), json.loads(q.stdout)
 
-    bad_docs = model_mismatches(R, "C15_docs", "list block", "show_generate", [(c_blocks(d), o) for d, o in zip(docs, obs_docs)])
-    bad_seqs = model_mismatches(R, "C15_seqs", "list elem", "show_seq",
-                                [(C.clist(map(c_elem, sq), "elem"), o) for sq, o in zip(seqs, obs_seqs)])
+    try:
+        bad_docs = model_mismatches(R, "C15_docs", "list block", "show_generate", [(c_blocks(d), o) for d, o in zip(docs, obs_docs)])
+        bad_seqs = model_mismatches(R, "C15_seqs", "list elem", "show_seq",
+                                    [(C.clist(map(c_elem, sq), "elem"), o) for sq, o in zip(seqs, obs_seqs)])
+    except C.CoqError as e:
+        R.obligation_broken("correspondence C15 (model evaluation failed)", e.out[-1500:])
+        return search(R, docs[:150], "model-evaluation-failed")
 
     # ---- evidence numbers (measured)
     types = {}
@@ -561,7 +584,7 @@ def run(R, only=None):
                        "element types (nested lists, both table layouts, figures) plus ~1% unsupported/ill-formed elements; and sequences of 2-9 "
                        "Markdown()(item) calls on one instance, half of them containing a list conversion that raises; non-trivial = the "
                        "implementation returned a card / a text")
-    dsmp = next((i for i, o in enumerate(obs_docs) if o.startswith("OK") and i > 3), 0)
+    dsmp = next((i for i, o in enumerate(obs_docs) if o.startswith("OK") and i > 5), 0)
     R.sample({"document": docs[dsmp], "implementation": obs_docs[dsmp], "model": "equal" if dsmp not in dict(bad_docs) else dict(bad_docs)[dsmp]})
     R.sample({"document": docs[3], "implementation": obs_docs[3], "model": "equal" if 3 not in dict(bad_docs) else dict(bad_docs)[3]})
     R.sample({"calls_on_one_instance": seqs[0], "implementation": obs_seqs[0], "model": "equal" if 0 not in dict(bad_seqs) else dict(bad_seqs)[0]})
@@ -571,6 +594,8 @@ def run(R, only=None):
             print("DOC", idx, json.dumps(docs[idx]), "\nIMPL ", repr(obs_docs[idx]), "\nMODEL", repr(model), file=sys.stderr)
         for idx, model in bad_seqs[:10]:
             print("SEQ", idx, json.dumps(seqs[idx]), "\nIMPL ", repr(obs_seqs[idx]), "\nMODEL", repr(model), file=sys.stderr)
+    bad_docs = sorted(bad_docs, key=lambda im: len(json.dumps(docs[im[0]])))      # smallest disagreeing inputs first
+    bad_seqs = sorted(bad_seqs, key=lambda im: len(json.dumps(seqs[im[0]])))
     for idx, model in bad_docs[:20]:
         R.obligation_broken("correspondence C15/generate", f"document #{idx} {json.dumps(docs[idx])[:600]}: implementation {obs_docs[idx][:300]!r}, model {model[:300]!r}")
     for idx, model in bad_seqs[:20]:
@@ -583,6 +608,8 @@ def run(R, only=None):
 
     # ---- (3) finding probes: every open finding's witness, and the witnesses of the fixed defects
     run_oracle(R, [D20_WITNESS], "probe-D20")
+    run_oracle(R, [D27_WITNESS], "probe-D27")
+    run_oracle(R, [D28_WITNESS], "probe-D28")
     run_oracle(R, list(FIXED_WITNESSES.values()), "probe-fixed-defects")
 
     # ---- (4) search with the property's own oracle when a proof or the correspondence broke
@@ -606,7 +633,7 @@ def replay(R, rep):
         if p.returncode == 0:
             o = json.loads(p.stdout)[0]
             try:
-                bad = model_mismatches(R, "C15_replay", "list block", "show_generate", [(c_blocks(r["blocks"]), o)])
+                bad = model_mismatches(R, "C15_replay", "list block", "show_generate", [(c_blocks(r["blocks"]), o)], trunc=100000)
             except ValueError as e:
                 bad = []
                 R.notes["replay_model"] = str(e)
